@@ -53,7 +53,7 @@ def draw(rng, focus, maxlen):
 
 
 LOOKS = ('export', 'tigerxml', 'terminals', 'numbering', 'analysis',
-         'extract', 'navigation', 'labels')
+         'extract', 'navigation', 'labels', 'bracketstry')
 
 
 def look(R, what, live):
